@@ -1151,7 +1151,10 @@ func c10RepeatedHeaders(c *Ctx) {
 		case hung:
 			R.Violate(Violation{Kind: "oracle", Key: "cancelled-do-does-not-return", What: fmt.Sprintf("the server sent %d header blocks and went quiet; Do did not return within %v of the cancellation", headers, el), Case: cs})
 			sc.conn.Close()
-			<-done
+			select { // a call that still does not return is left behind (it was reported)
+			case <-done:
+			case <-time.After(time.Second):
+			}
 		case !errors.Is(derr, context.Canceled):
 			R.Violate(Violation{Kind: "oracle", Key: "cancel-error-mismatch", What: fmt.Sprintf("Do returned %v, which does not match context.Canceled", derr), Case: cs})
 		case !closed || closeCalls < 1:
@@ -1224,7 +1227,10 @@ func c10ChattyServer(c *Ctx) {
 			case hung:
 				R.Violate(Violation{Kind: "oracle", Key: "cancelled-do-does-not-return", What: fmt.Sprintf("the server keeps sending Progress every 2 ms (read timeout %v): Do did not return within %v of the cancellation", rt, bound), Case: cs})
 				sc.conn.Close()
-				<-done
+				select { // a call that still does not return is left behind (it was reported)
+				case <-done:
+				case <-time.After(time.Second):
+				}
 			case !errors.Is(derr, context.Canceled):
 				R.Violate(Violation{Kind: "oracle", Key: "cancel-error-mismatch", What: fmt.Sprintf("Do returned %v, which does not match context.Canceled", derr), Case: cs})
 			case took > rt+600*time.Millisecond:
